@@ -67,12 +67,17 @@ type c12File struct {
 }
 
 type c12Step struct {
-	Kind    string  `json:"kind"`            // cycle | reconcile
+	Kind    string  `json:"kind"`            // cycle | reconcile | overlap
 	Crash   string  `json:"crash,omitempty"` // "", hot, cold
 	CrashAt int     `json:"crash_at,omitempty"`
 	MidFrac float64 `json:"mid_frac,omitempty"`
 	Fail    string  `json:"fail,omitempty"` // copy-read | copy-write | update-tier | delete-src | update-tier+rollback
 	FailKey string  `json:"fail_key,omitempty"`
+	// overlap: a second migration cycle B (cron + manual trigger; nothing
+	// serialises RunMigrationCycle) took its candidate list before cycle A
+	// migrated anything; B migrates the first Split entries of its list before
+	// A runs, and works through the rest of the (now stale) list afterwards.
+	Split int `json:"split,omitempty"`
 }
 
 type c12Case struct {
@@ -154,6 +159,14 @@ func genC12Fault(t *rapid.T, c *c12Case) c12Step {
 	case 4, 5:
 		s.Crash = "hot"
 		s.CrashAt = rapid.IntRange(1, 4*len(cands)+2).Draw(t, "crashat")
+	case 6:
+		s.Kind = "overlap"
+		s.Split = rapid.IntRange(0, len(cands)).Draw(t, "split")
+		if rapid.Bool().Draw(t, "overlapfail") {
+			s.Fail = rapid.SampledFrom([]string{"copy-read", "copy-write", "update-tier", "delete-src"}).Draw(t, "fail")
+			s.FailKey = cands[rapid.IntRange(0, len(cands)-1).Draw(t, "failfile")].Key
+			s.MidFrac = 0.5
+		}
 	default:
 		s.Fail = rapid.SampledFrom([]string{"copy-read", "copy-write", "update-tier", "delete-src", "update-tier+rollback"}).Draw(t, "fail")
 		s.FailKey = cands[rapid.IntRange(0, len(cands)-1).Draw(t, "failfile")].Key
@@ -391,6 +404,28 @@ func (w *c12World) run(s c12Step) (crashed *storage.VerifPoint, err error) {
 		if rerr := w.mgr.RunMigrationCycle(ctx); rerr != nil {
 			w.logf("RunMigrationCycle error: %v", rerr)
 		}
+	case "overlap":
+		mig := w.mgr.VerifC12Migrator()
+		stale, ferr := mig.FindCandidates(ctx, tiering.TierHot, tiering.TierCold)
+		if ferr != nil {
+			return nil, ferr
+		}
+		sort.Slice(stale, func(i, j int) bool { return stale[i].Path < stale[j].Path })
+		split := s.Split
+		if split > len(stale) {
+			split = len(stale)
+		}
+		m1, e1 := mig.MigrateBatch(ctx, stale[:split])
+		if rerr := w.mgr.RunMigrationCycle(ctx); rerr != nil {
+			w.logf("RunMigrationCycle error: %v", rerr)
+		}
+		if !w.hot.Dead() && !w.cold.Dead() {
+			// B is in the same process as A: it only goes on if the node did not die
+			m2, e2 := mig.MigrateBatch(ctx, stale[split:])
+			w.logf("overlap: B took %d candidates; before A migrated=%d errors=%d; after A migrated=%d errors=%d", len(stale), m1, e1, m2, e2)
+		}
+		w.nonTrivial = true
+		verifkit.Class("overlapping-cycles")
 	case "reconcile":
 		found, deleted, errs := w.mgr.VerifC12Migrator().ReconcileOrphanedFiles(ctx)
 		w.logf("reconcile: found=%d deleted=%d errors=%d", found, deleted, errs)
@@ -681,6 +716,15 @@ func TestVerifC12_EnumFail(t *testing.T) {
 			keys = append(keys, f.Key)
 		}
 		sort.Strings(keys)
+		for split := 0; split <= len(keys) && split <= 2; split++ {
+			c := c12CloneFiles(base)
+			c.Steps = []c12Step{{Kind: "overlap", Split: split}}
+			verifkit.Class("enum-overlap")
+			c12Run(t, c, db, fmt.Sprintf("enumoverlap/%d/%d", li, split))
+			for i, f := range c.Files {
+				base.Files[i].data, base.Files[i].Size, base.Files[i].Rows = f.data, f.Size, f.Rows
+			}
+		}
 		for _, fail := range []string{"copy-read", "copy-write", "update-tier", "delete-src", "update-tier+rollback"} {
 			for ki, key := range keys {
 				c := c12CloneFiles(base)
